@@ -48,6 +48,10 @@ Lemma Rabs_pos u : 0 < u -> Rabs u = u.
 Proof. intro H. apply Rabs_pos_eq. lra. Qed.
 Lemma Qeq_bool_R a c : Qeq_bool a c = true -> Q2R a = Q2R c.
 Proof. intro H. apply Qeq_eqR. apply Qeq_bool_iff. exact H. Qed.
+Lemma powerRZ_2 u : powerRZ u 2 = u * u.
+Proof. simpl. ring. Qed.
+Lemma powerRZ_3 u : powerRZ u 3 = u * u * u.
+Proof. simpl. ring. Qed.
 Lemma pw_pos u k v : 0 < u -> (forall z, k = Some z -> v = IZR z) -> pw u k v = Rpower u v.
 Proof.
   intros Hu Hk. destruct k as [z|]; simpl; [|reflexivity].
@@ -361,7 +365,7 @@ Proof.
   induction n as [|n IH]; intros b d Hn Hw Hnb pop; [lia|].
   destruct d as [op ty deg v|op ty deg v c0|op ty deg v c0 c1].
   - (* atom *)
-    simpl in Hw. bsplit. apply Nat.eqb_eq in H. subst deg.
+    cbn [dwfb] in Hw. bsplit. apply Nat.eqb_eq in H. subst deg.
     rewrite to_list_eq. cbn [decide ddeg dvl otsub obind app].
     eexists; split; [reflexivity|].
     destruct v as [|txt qv qp|s]; [discriminate| |].
@@ -369,8 +373,8 @@ Proof.
       intros env x _ He. symmetry. apply Qeq_bool_R. exact He.
     + exists (TSym s). simpl. repeat split; auto.
   - (* one child *)
-    simpl in Hw. bsplit. destruct v; try discriminate.
-    simpl in Hnb.
+    cbn [dwfb] in Hw. bsplit. destruct v; try discriminate.
+    cbn [no_bad bad_here negb andb] in Hnb.
     assert (Hs0 : (dsize c0 < n)%nat) by (simpl in Hn; lia).
     destruct (IH b c0 Hs0 H Hnb (Some op)) as [l0 [E0 [t0 [R0 [W0 [S0 B0]]]]]].
     apply orb_prop in H2. destruct H2 as [H2|H2]; bsplit.
@@ -392,9 +396,628 @@ Proof.
         rewrite (proj2 (String.eqb_neq op "Sqrt")) by (apply Hnr; simpl; auto).
         rewrite (proj2 (String.eqb_neq op "Inv")) by (apply Hnr; simpl; auto).
         apply Hsem. intros ->. exact Hp.
-      * intros Hsb Hdb. cbn [dbasisb] in Hdb. bsplit. simpl in H3.
+      * intros Hsb Hdb. cbn [dbasisb] in Hdb. apply andb_prop in Hdb. destruct Hdb as [Hdb0 Hdb1].
+        cbn [Nat.eqb] in Hdb1.
         cbn [relabel map relab1 forallb]. fold (relabel l0).
-        rewrite (Hlab b H3). rewrite (B0 Hsb H2). reflexivity.
-    + admit.
-  - admit.
-Admitted.
+        rewrite (Hlab b Hdb1). rewrite (B0 Hsb Hdb0). reflexivity.
+    + (* a renamed Pow: Square, Cube, Sqrt, Inv *)
+      apply Nat.eqb_eq in H2. subst deg. apply mem_In in H4. simpl in H4.
+      destruct H4 as [<- | [<- | [<- | [<- | []]]]].
+      * (* Square *)
+        rewrite to_list_eq, decide_Square.
+        destruct (mem "sqaure" (b1 b)) eqn:Hsq; cbn [otsub tsub obind]; rewrite E0; cbn [obind app];
+          (eexists; split; [reflexivity|]); rewrite ?app_nil_r.
+        -- exists (TUn "square" t0).
+           split; [cbn [relabel map relab1]; fold (relabel l0); rewrite R0; reflexivity|].
+           split; [split; [reflexivity|assumption]|]. split.
+           ++ intros env x [Hp0 Hp] He. cbn [evalT dsem String.eqb Ascii.eqb Bool.eqb].
+              rewrite (S0 env x Hp0 He). unfold un_lab_sem. cbn [String.eqb Ascii.eqb Bool.eqb].
+              rewrite powerRZ_2. reflexivity.
+           ++ intros Hsb Hdb. cbn [dbasisb Nat.eqb String.eqb Ascii.eqb Bool.eqb] in Hdb.
+              apply andb_prop in Hdb. destruct Hdb as [Hdb0 Hdb1]. rewrite Hsq in Hdb1. simpl in Hdb1.
+              cbn [relabel map relab1 forallb]. fold (relabel l0). rewrite (B0 Hsb Hdb0).
+              change (relab_str "Square") with "square". unfold lab_okb. rewrite Hdb1. reflexivity.
+        -- exists (TBin "pow" t0 (TNum "2" 2)).
+           split; [cbn [relabel map relab1 app]; fold (relabel (l0 ++ [LNum "2" 2 2])); rewrite relabel_app, R0; reflexivity|].
+           split; [split; [reflexivity|split; [assumption|exact I]]|]. split.
+           ++ intros env x [Hp0 Hp] He. cbn [evalT dsem String.eqb Ascii.eqb Bool.eqb].
+              rewrite (S0 env x Hp0 He). unfold bin_lab_sem. cbn [String.eqb Ascii.eqb Bool.eqb].
+              simpl in Hp. rewrite Rabs_pos by exact Hp. rewrite Q2R_2, Rpower_2 by exact Hp.
+              rewrite powerRZ_2. reflexivity.
+           ++ intros Hsb Hdb. cbn [dbasisb] in Hdb. apply andb_prop in Hdb. destruct Hdb as [Hdb0 Hdb1].
+              cbn [relabel map relab1 forallb app]. fold (relabel (l0 ++ [LNum "2" 2 2])).
+              rewrite relabel_app, forallb_app, (B0 Hsb Hdb0).
+              change (relab_str "pow") with "pow". rewrite lab_ok_bin by (auto; simpl; auto 10). reflexivity.
+      * (* Cube *)
+        rewrite to_list_eq, decide_Cube.
+        destruct (mem "cube" (b1 b)) eqn:Hcu; cbn [otsub tsub obind]; rewrite E0; cbn [obind app];
+          (eexists; split; [reflexivity|]); rewrite ?app_nil_r.
+        -- exists (TUn "cube" t0).
+           split; [cbn [relabel map relab1]; fold (relabel l0); rewrite R0; reflexivity|].
+           split; [split; [reflexivity|assumption]|]. split.
+           ++ intros env x [Hp0 Hp] He. cbn [evalT dsem String.eqb Ascii.eqb Bool.eqb].
+              rewrite (S0 env x Hp0 He). unfold un_lab_sem. cbn [String.eqb Ascii.eqb Bool.eqb].
+              rewrite powerRZ_3. reflexivity.
+           ++ intros Hsb Hdb. cbn [dbasisb] in Hdb. apply andb_prop in Hdb. destruct Hdb as [Hdb0 Hdb1].
+              cbn [relabel map relab1 forallb]. fold (relabel l0). rewrite (B0 Hsb Hdb0).
+              change (relab_str "Cube") with "cube". unfold lab_okb. rewrite Hcu. reflexivity.
+        -- exists (TBin "pow" t0 (TNum "3" 3)).
+           split; [cbn [relabel map relab1 app]; fold (relabel (l0 ++ [LNum "3" 3 3])); rewrite relabel_app, R0; reflexivity|].
+           split; [split; [reflexivity|split; [assumption|exact I]]|]. split.
+           ++ intros env x [Hp0 Hp] He. cbn [evalT dsem String.eqb Ascii.eqb Bool.eqb].
+              rewrite (S0 env x Hp0 He). unfold bin_lab_sem. cbn [String.eqb Ascii.eqb Bool.eqb].
+              simpl in Hp. rewrite Rabs_pos by exact Hp. rewrite Q2R_3, Rpower_3 by exact Hp.
+              rewrite powerRZ_3. reflexivity.
+           ++ intros Hsb Hdb. cbn [dbasisb] in Hdb. apply andb_prop in Hdb. destruct Hdb as [Hdb0 Hdb1].
+              cbn [relabel map relab1 forallb app]. fold (relabel (l0 ++ [LNum "3" 3 3])).
+              rewrite relabel_app, forallb_app, (B0 Hsb Hdb0).
+              change (relab_str "pow") with "pow". rewrite lab_ok_bin by (auto; simpl; auto 10). reflexivity.
+      * (* Sqrt *)
+        rewrite to_list_eq, decide_Sqrt. cbn [otsub tsub obind]. rewrite E0. cbn [obind app].
+        eexists; split; [reflexivity|]. rewrite ?app_nil_r.
+        exists (TUn "sqrt" t0).
+        split; [cbn [relabel map relab1]; fold (relabel l0); rewrite R0; reflexivity|].
+        split; [split; [reflexivity|assumption]|]. split.
+        -- intros env x [Hp0 Hp] He. cbn [evalT dsem String.eqb Ascii.eqb Bool.eqb].
+           rewrite (S0 env x Hp0 He). unfold un_lab_sem. cbn [String.eqb Ascii.eqb Bool.eqb orb].
+           simpl in Hp. rewrite Rabs_pos by exact Hp. rewrite Q2R_half, Rpower_sqrt by exact Hp. reflexivity.
+        -- intros Hsb Hdb. cbn [dbasisb] in Hdb. apply andb_prop in Hdb. destruct Hdb as [Hdb0 Hdb1].
+           cbn [relabel map relab1 forallb]. fold (relabel l0). rewrite (B0 Hsb Hdb0).
+           change (relab_str "Sqrt") with "sqrt". unfold lab_okb.
+           replace (mem "sqrt" ["sqrt"; "log"; "abs"]) with true by reflexivity. rewrite orb_true_r. reflexivity.
+      * (* Inv *)
+        rewrite to_list_eq, decide_Inv. cbn [otsub tsub obind]. rewrite E0. cbn [obind app].
+        eexists; split; [reflexivity|]. rewrite ?app_nil_r.
+        exists (TUn "inv" t0).
+        split; [cbn [relabel map relab1]; fold (relabel l0); rewrite R0; reflexivity|].
+        split; [split; [reflexivity|assumption]|]. split.
+        -- intros env x [Hp0 Hp] He. cbn [evalT dsem String.eqb Ascii.eqb Bool.eqb].
+           rewrite (S0 env x Hp0 He). unfold un_lab_sem. cbn [String.eqb Ascii.eqb Bool.eqb].
+           rewrite powerRZ_m1. reflexivity.
+        -- intros Hsb Hdb. cbn [dbasisb Nat.eqb String.eqb Ascii.eqb Bool.eqb] in Hdb.
+           apply andb_prop in Hdb. destruct Hdb as [Hdb0 Hdb1].
+           cbn [relabel map relab1 forallb]. fold (relabel l0). rewrite (B0 Hsb Hdb0).
+           change (relab_str "Inv") with "inv". unfold lab_okb. rewrite Hdb1. reflexivity.
+  - (* two children *)
+    assert (Hw0 : dwfb c0 = true) by (cbn [dwfb] in Hw; bsplit; assumption).
+    assert (Hw1 : dwfb c1 = true) by (cbn [dwfb] in Hw; bsplit; assumption).
+    assert (Hv : v = VNone) by (cbn [dwfb] in Hw; bsplit; destruct v; [reflexivity|discriminate|discriminate]).
+    assert (Hdeg : exists m, deg = S (S m)).
+    { cbn [dwfb] in Hw; bsplit.
+      match goal with Hx : (2 <=? deg)%nat = true |- _ => apply Nat.leb_le in Hx; destruct deg as [|[|m]]; [lia|lia|eauto] end. }
+    assert (Hop : In op ["Add"; "Mul"; "Pow"; "Div"]) by (cbn [dwfb] in Hw; bsplit; apply mem_In; assumption).
+    destruct Hdeg as [m ->]. subst v.
+    cbn [no_bad] in Hnb. apply andb_prop in Hnb. destruct Hnb as [Hnbh Hnb].
+    apply andb_prop in Hnb. destruct Hnb as [Hnb0 Hnb1]. apply negb_true_iff in Hnbh.
+    assert (Hs0 : (dsize c0 < n)%nat) by (simpl in Hn; lia).
+    assert (Hs1 : (dsize c1 < n)%nat) by (simpl in Hn; lia).
+    destruct (IH b c0 Hs0 Hw0 Hnb0 (Some op)) as [l0 [E0 [t0 [R0 [W0 [S0 B0]]]]]].
+    destruct (IH b c1 Hs1 Hw1 Hnb1 (Some op)) as [l1 [E1 [t1 [R1 [W1 [S1 B1]]]]]].
+    simpl in Hop. destruct Hop as [<- | [<- | [<- | [<- | []]]]].
+    + (* Add *)
+      rewrite to_list_eq, decide_Add.
+      2:{ intro Hm. destruct (dop_Mul_D2 c1 Hw1 Hm) as [ty1 [m1 [g0 [g1 ->]]]]. exists g0, g1. split; reflexivity. }
+      unfold sub_kind. destruct (String.eqb (dop c1) "Mul") eqn:Hm.
+      * destruct (dop_Mul_D2 c1 Hw1 Hm) as [ty1 [m1 [g0 [g1 ->]]]]. cbn [kid0 kid1].
+        assert (Hwg0 : dwfb g0 = true) by (cbn [dwfb] in Hw1; bsplit; assumption).
+        assert (Hwg1 : dwfb g1 = true) by (cbn [dwfb] in Hw1; bsplit; assumption).
+        cbn [no_bad] in Hnb1. apply andb_prop in Hnb1. destruct Hnb1 as [_ Hnb1].
+        apply andb_prop in Hnb1. destruct Hnb1 as [Hnbg0 Hnbg1].
+        assert (Hsg0 : (dsize g0 < n)%nat) by (simpl in Hn; lia).
+        assert (Hsg1 : (dsize g1 < n)%nat) by (simpl in Hn; lia).
+        destruct (String.eqb (dop g0) "NegativeOne") eqn:Hn0.
+        -- destruct (dop_NegativeOne g0 Hwg0 Hn0) as [txt [qv [qp [-> Hnum]]]].
+           destruct (IH b g1 Hsg1 Hwg1 Hnbg1 (Some "Mul")) as [lg [Eg [tg [Rg [Wg [Sg Bg]]]]]].
+           cbn [otsub tsub obind]. rewrite E0, Eg. cbn [obind app].
+           eexists; split; [reflexivity|]. rewrite ?app_nil_r.
+           exists (TBin "-" t0 tg).
+           split; [cbn [relabel map relab1]; fold (relabel (l0 ++ lg)); rewrite relabel_app, R0, Rg; reflexivity|].
+           split; [split; [reflexivity|split; assumption]|]. split.
+           ++ intros env x [Hp0 [Hp1 _]] He. cbn [dexactb] in He. apply andb_prop in He. destruct He as [He0 He1].
+              apply andb_prop in He1. destruct He1 as [_ Heg].
+              cbn [dpos] in Hp1. destruct Hp1 as [_ [Hpg _]].
+              cbn [evalT dsem String.eqb Ascii.eqb Bool.eqb].
+              rewrite (S0 env x Hp0 He0), (Sg env x Hpg Heg). unfold bin_lab_sem. cbn [String.eqb Ascii.eqb Bool.eqb].
+              rewrite (proj1 (numwf_m1 _ _ _ Hnum)). ring.
+           ++ intros Hsb Hdb. cbn [dbasisb] in Hdb. apply andb_prop in Hdb. destruct Hdb as [Hdb0 Hdb1].
+              apply andb_prop in Hdb1. destruct Hdb1 as [_ Hdbg].
+              cbn [relabel map relab1 forallb]. fold (relabel (l0 ++ lg)).
+              rewrite relabel_app, forallb_app, (B0 Hsb Hdb0), (Bg Hsb Hdbg).
+              change (relab_str "Sub") with "-". rewrite lab_ok_bin by (auto; simpl; auto 10). reflexivity.
+        -- destruct (String.eqb (dop g1) "NegativeOne") eqn:Hn1.
+           ++ destruct (dop_NegativeOne g1 Hwg1 Hn1) as [txt [qv [qp [-> Hnum]]]].
+              destruct (IH b g0 Hsg0 Hwg0 Hnbg0 (Some "Mul")) as [lg [Eg [tg [Rg [Wg [Sg Bg]]]]]].
+              assert (Etg : tsub b (D2 "Add" ty (S (S m)) VNone c0
+                               (D2 "Mul" ty1 (S (S m1)) VNone g0 (D0 "NegativeOne" "NegativeOne" 0 (VNum txt qv qp)))) KC10
+                            = to_list b (Some "Mul") g0) by reflexivity.
+              cbn [otsub]. rewrite Etg. cbn [tsub obind]. rewrite E0, Eg. cbn [obind app].
+              eexists; split; [reflexivity|]. rewrite ?app_nil_r.
+              exists (TBin "-" t0 tg).
+              split; [cbn [relabel map relab1]; fold (relabel (l0 ++ lg)); rewrite relabel_app, R0, Rg; reflexivity|].
+              split; [split; [reflexivity|split; assumption]|]. split.
+              ** intros env x [Hp0 [Hp1 _]] He. cbn [dexactb] in He. apply andb_prop in He. destruct He as [He0 He1].
+                 apply andb_prop in He1. destruct He1 as [Heg _].
+                 cbn [dpos] in Hp1. destruct Hp1 as [Hpg _].
+                 cbn [evalT dsem String.eqb Ascii.eqb Bool.eqb].
+                 rewrite (S0 env x Hp0 He0), (Sg env x Hpg Heg). unfold bin_lab_sem. cbn [String.eqb Ascii.eqb Bool.eqb].
+                 rewrite (proj1 (numwf_m1 _ _ _ Hnum)). ring.
+              ** intros Hsb Hdb. cbn [dbasisb] in Hdb. apply andb_prop in Hdb. destruct Hdb as [Hdb0 Hdb1].
+                 apply andb_prop in Hdb1. destruct Hdb1 as [Hdbg _].
+                 cbn [relabel map relab1 forallb]. fold (relabel (l0 ++ lg)).
+                 rewrite relabel_app, forallb_app, (B0 Hsb Hdb0), (Bg Hsb Hdbg).
+                 change (relab_str "Sub") with "-". rewrite lab_ok_bin by (auto; simpl; auto 10). reflexivity.
+           ++ cbn [otsub tsub obind]. rewrite E0, E1. cbn [obind app].
+              eexists; split; [reflexivity|]. rewrite ?app_nil_r.
+              exists (TBin "+" t0 t1).
+              split; [cbn [relabel map relab1]; fold (relabel (l0 ++ l1)); rewrite relabel_app, R0, R1; reflexivity|].
+              split; [split; [reflexivity|split; assumption]|]. split.
+              ** intros env x [Hp0 [Hp1 _]] He. cbn [dexactb] in He. apply andb_prop in He. destruct He as [He0 He1].
+                 cbn [evalT]. rewrite (S0 env x Hp0 He0), (S1 env x Hp1 He1). reflexivity.
+              ** intros Hsb Hdb. cbn [dbasisb] in Hdb. apply andb_prop in Hdb. destruct Hdb as [Hdb0 Hdb1].
+                 cbn [relabel map relab1 forallb]. fold (relabel (l0 ++ l1)).
+                 rewrite relabel_app, forallb_app, (B0 Hsb Hdb0), (B1 Hsb Hdb1).
+                 change (relab_str "Add") with "+". rewrite lab_ok_bin by (auto; simpl; auto 10). reflexivity.
+      * cbn [otsub tsub obind]. rewrite E0, E1. cbn [obind app].
+        eexists; split; [reflexivity|]. rewrite ?app_nil_r.
+        exists (TBin "+" t0 t1).
+        split; [cbn [relabel map relab1]; fold (relabel (l0 ++ l1)); rewrite relabel_app, R0, R1; reflexivity|].
+        split; [split; [reflexivity|split; assumption]|]. split.
+        -- intros env x [Hp0 [Hp1 _]] He. cbn [dexactb] in He. apply andb_prop in He. destruct He as [He0 He1].
+           cbn [evalT]. rewrite (S0 env x Hp0 He0), (S1 env x Hp1 He1). reflexivity.
+        -- intros Hsb Hdb. cbn [dbasisb] in Hdb. apply andb_prop in Hdb. destruct Hdb as [Hdb0 Hdb1].
+           cbn [relabel map relab1 forallb]. fold (relabel (l0 ++ l1)).
+           rewrite relabel_app, forallb_app, (B0 Hsb Hdb0), (B1 Hsb Hdb1).
+           change (relab_str "Add") with "+". rewrite lab_ok_bin by (auto; simpl; auto 10). reflexivity.
+    + (* Mul *)
+      rewrite to_list_eq, decide_Mul.
+      assert (Hc : String.eqb (dop c0) "Pow" && (String.eqb (dty c1) "NegativeOne" && mem "/" (b2 b)) = false).
+      { cbn [bad_here String.eqb Ascii.eqb Bool.eqb andb orb] in Hnbh.
+        destruct (String.eqb (dop c0) "Pow"), (String.eqb (dty c1) "NegativeOne"), (mem "/" (b2 b));
+          simpl in *; congruence. }
+      rewrite Hc.
+      destruct (is_unity c0) eqn:Hu0; [|destruct (is_unity c1) eqn:Hu1].
+      * destruct (unity_atom c0 Hw0 Hu0) as [op0 [ty0 [txt [qv [qp [-> Hq]]]]]].
+        cbn [otsub tsub obind]. rewrite E1. cbn [obind app].
+        eexists; split; [reflexivity|]. rewrite ?app_nil_r.
+        exists t1. split; [assumption|]. split; [assumption|]. split.
+        -- intros env x [Hp0 [Hp1 _]] He. cbn [dexactb] in He. apply andb_prop in He. destruct He as [He0 He1].
+           rewrite (S1 env x Hp1 He1). cbn [dsem String.eqb Ascii.eqb Bool.eqb].
+           rewrite (Qeq_bool_R _ _ He0), (Qeq_bool_R _ _ Hq). unfold Q2R. simpl. lra.
+        -- intros Hsb Hdb. cbn [dbasisb] in Hdb. apply andb_prop in Hdb. destruct Hdb as [Hdb0 Hdb1]. auto.
+      * destruct (unity_atom c1 Hw1 Hu1) as [op1 [ty1 [txt [qv [qp [-> Hq]]]]]].
+        cbn [otsub tsub obind]. rewrite E0. cbn [obind app].
+        eexists; split; [reflexivity|]. rewrite ?app_nil_r.
+        exists t0. split; [assumption|]. split; [assumption|]. split.
+        -- intros env x [Hp0 [Hp1 _]] He. cbn [dexactb] in He. apply andb_prop in He. destruct He as [He0 He1].
+           rewrite (S0 env x Hp0 He0). cbn [dsem String.eqb Ascii.eqb Bool.eqb].
+           rewrite (Qeq_bool_R _ _ He1), (Qeq_bool_R _ _ Hq). unfold Q2R. simpl. lra.
+        -- intros Hsb Hdb. cbn [dbasisb] in Hdb. apply andb_prop in Hdb. destruct Hdb as [Hdb0 Hdb1]. auto.
+      * cbn [otsub tsub obind]. rewrite E0, E1. cbn [obind app].
+        eexists; split; [reflexivity|]. rewrite ?app_nil_r.
+        exists (TBin "*" t0 t1).
+        split; [cbn [relabel map relab1]; fold (relabel (l0 ++ l1)); rewrite relabel_app, R0, R1; reflexivity|].
+        split; [split; [reflexivity|split; assumption]|]. split.
+        -- intros env x [Hp0 [Hp1 _]] He. cbn [dexactb] in He. apply andb_prop in He. destruct He as [He0 He1].
+           cbn [evalT]. rewrite (S0 env x Hp0 He0), (S1 env x Hp1 He1). reflexivity.
+        -- intros Hsb Hdb. cbn [dbasisb] in Hdb. apply andb_prop in Hdb. destruct Hdb as [Hdb0 Hdb1].
+           cbn [relabel map relab1 forallb]. fold (relabel (l0 ++ l1)).
+           rewrite relabel_app, forallb_app, (B0 Hsb Hdb0), (B1 Hsb Hdb1).
+           change (relab_str "Mul") with "*". rewrite lab_ok_bin by (auto; simpl; auto 10). reflexivity.
+    + (* Pow *)
+      rewrite to_list_eq, decide_Pow.
+      destruct (String.eqb (dty c1) "Half" && (mem "sqrt" (b1 b) || mem "sqrt_abs" (b1 b))) eqn:Hhalf.
+      { apply andb_prop in Hhalf. destruct Hhalf as [Hh1 Hh2].
+        destruct (dty_atom c1 "Half" Hw1 (or_introl eq_refl) Hh1) as [txt [qv [qp [-> Hnum]]]].
+        assert (Hsem : forall env x, dpos env x (D2 "Pow" ty (S (S m)) VNone c0 (D0 "Half" "Half" 0 (VNum txt qv qp))) ->
+                 dexactb (D2 "Pow" ty (S (S m)) VNone c0 (D0 "Half" "Half" 0 (VNum txt qv qp))) = true ->
+                 sqrt (Rabs (evalT env x t0)) = dsem env x (D2 "Pow" ty (S (S m)) VNone c0 (D0 "Half" "Half" 0 (VNum txt qv qp)))).
+        { intros env x [Hp0 [_ Hp]] He. cbn [dexactb] in He. apply andb_prop in He. destruct He as [He0 _].
+          rewrite (S0 env x Hp0 He0). cbn [dsem String.eqb Ascii.eqb Bool.eqb dint_exp].
+          change (int_of "Half" qv) with (@None Z). cbn [pw].
+          simpl in Hp. rewrite Rabs_pos by exact Hp. rewrite (numwf_half _ _ _ Hnum), Rpower_sqrt by exact Hp. reflexivity. }
+        destruct (mem "sqrt" (b1 b)) eqn:Hsq; cbn [otsub tsub obind]; rewrite E0; cbn [obind app];
+          (eexists; split; [reflexivity|]); rewrite ?app_nil_r.
+        - exists (TUn "sqrt" t0).
+          split; [cbn [relabel map relab1]; fold (relabel l0); rewrite R0; reflexivity|].
+          split; [split; [reflexivity|assumption]|]. split; [exact Hsem|].
+          intros Hsb Hdb. cbn [dbasisb] in Hdb. apply andb_prop in Hdb. destruct Hdb as [Hdb0 Hdb1].
+          cbn [relabel map relab1 forallb]. fold (relabel l0). rewrite (B0 Hsb Hdb0).
+          change (relab_str "sqrt") with "sqrt". unfold lab_okb. rewrite Hsq. reflexivity.
+        - simpl in Hh2. exists (TUn "sqrt_abs" t0).
+          split; [cbn [relabel map relab1]; fold (relabel l0); rewrite R0; reflexivity|].
+          split; [split; [reflexivity|assumption]|]. split; [exact Hsem|].
+          intros Hsb Hdb. cbn [dbasisb] in Hdb. apply andb_prop in Hdb. destruct Hdb as [Hdb0 Hdb1].
+          cbn [relabel map relab1 forallb]. fold (relabel l0). rewrite (B0 Hsb Hdb0).
+          change (relab_str "sqrt_abs") with "sqrt_abs". unfold lab_okb. rewrite Hh2. reflexivity. }
+      destruct (val_is (dvl c1) "2" && mem "square" (b1 b)) eqn:Hsq2.
+      { apply andb_prop in Hsq2. destruct Hsq2 as [Hv2 Hm2].
+        destruct (val_is_num c1 "2" Hw1 (or_introl eq_refl) Hv2) as [op1 [ty1 [qv [qp [-> Hnum]]]]].
+        cbn [otsub tsub obind]. rewrite E0. cbn [obind app].
+        eexists; split; [reflexivity|]. rewrite ?app_nil_r.
+        exists (TUn "square" t0).
+        split; [cbn [relabel map relab1]; fold (relabel l0); rewrite R0; reflexivity|].
+        split; [split; [reflexivity|assumption]|]. split.
+        - intros env x [Hp0 [_ Hp]] He. cbn [dexactb] in He. apply andb_prop in He. destruct He as [He0 He1].
+          cbn [evalT]. rewrite (S0 env x Hp0 He0). unfold un_lab_sem. cbn [String.eqb Ascii.eqb Bool.eqb].
+          cbn [dsem String.eqb Ascii.eqb Bool.eqb dint_exp]. simpl in Hp.
+          rewrite pw_pos; [|exact Hp|intros z Hz; eapply numwf_int; eauto].
+          rewrite (Qeq_bool_R _ _ He1), (numwf_txt2 _ _ _ Hnum), Rpower_2 by exact Hp. reflexivity.
+        - intros Hsb Hdb. cbn [dbasisb] in Hdb. apply andb_prop in Hdb. destruct Hdb as [Hdb0 Hdb1].
+          cbn [relabel map relab1 forallb]. fold (relabel l0). rewrite (B0 Hsb Hdb0).
+          change (relab_str "square") with "square". unfold lab_okb. rewrite Hm2. reflexivity. }
+      destruct (val_is (dvl c1) "3" && mem "cube" (b1 b)) eqn:Hcu3.
+      { apply andb_prop in Hcu3. destruct Hcu3 as [Hv3 Hm3].
+        destruct (val_is_num c1 "3" Hw1 (or_intror eq_refl) Hv3) as [op1 [ty1 [qv [qp [-> Hnum]]]]].
+        cbn [otsub tsub obind]. rewrite E0. cbn [obind app].
+        eexists; split; [reflexivity|]. rewrite ?app_nil_r.
+        exists (TUn "cube" t0).
+        split; [cbn [relabel map relab1]; fold (relabel l0); rewrite R0; reflexivity|].
+        split; [split; [reflexivity|assumption]|]. split.
+        - intros env x [Hp0 [_ Hp]] He. cbn [dexactb] in He. apply andb_prop in He. destruct He as [He0 He1].
+          cbn [evalT]. rewrite (S0 env x Hp0 He0). unfold un_lab_sem. cbn [String.eqb Ascii.eqb Bool.eqb].
+          cbn [dsem String.eqb Ascii.eqb Bool.eqb dint_exp]. simpl in Hp.
+          rewrite pw_pos; [|exact Hp|intros z Hz; eapply numwf_int; eauto].
+          rewrite (Qeq_bool_R _ _ He1), (numwf_txt3 _ _ _ Hnum), Rpower_3 by exact Hp. reflexivity.
+        - intros Hsb Hdb. cbn [dbasisb] in Hdb. apply andb_prop in Hdb. destruct Hdb as [Hdb0 Hdb1].
+          cbn [relabel map relab1 forallb]. fold (relabel l0). rewrite (B0 Hsb Hdb0).
+          change (relab_str "cube") with "cube". unfold lab_okb. rewrite Hm3. reflexivity. }
+      destruct (String.eqb (dty c1) "NegativeOne" && mem "inv" (b1 b)) eqn:Hinv.
+      { apply andb_prop in Hinv. destruct Hinv as [Hi1 Hi2].
+        destruct (dty_atom c1 "NegativeOne" Hw1 (or_intror eq_refl) Hi1) as [txt [qv [qp [-> Hnum]]]].
+        cbn [otsub tsub obind]. rewrite E0. cbn [obind app].
+        eexists; split; [reflexivity|]. rewrite ?app_nil_r.
+        exists (TUn "inv" t0).
+        split; [cbn [relabel map relab1]; fold (relabel l0); rewrite R0; reflexivity|].
+        split; [split; [reflexivity|assumption]|]. split.
+        - intros env x [Hp0 _] He. cbn [dexactb] in He. apply andb_prop in He. destruct He as [He0 He1].
+          cbn [evalT]. rewrite (S0 env x Hp0 He0). unfold un_lab_sem. cbn [String.eqb Ascii.eqb Bool.eqb].
+          cbn [dsem String.eqb Ascii.eqb Bool.eqb dint_exp].
+          change (int_of "NegativeOne" qv) with (Some (Qfloor qv)). cbn [pw].
+          rewrite (proj2 (numwf_m1 _ _ _ Hnum)), powerRZ_m1. reflexivity.
+        - intros Hsb Hdb. cbn [dbasisb] in Hdb. apply andb_prop in Hdb. destruct Hdb as [Hdb0 Hdb1].
+          cbn [relabel map relab1 forallb]. fold (relabel l0). rewrite (B0 Hsb Hdb0).
+          change (relab_str "Inv") with "inv". unfold lab_okb. rewrite Hi2. reflexivity. }
+      cbn [otsub tsub obind]. rewrite E0, E1. cbn [obind app].
+      eexists; split; [reflexivity|]. rewrite ?app_nil_r.
+      exists (TBin "pow" t0 t1).
+      split; [cbn [relabel map relab1]; fold (relabel (l0 ++ l1)); rewrite relabel_app, R0, R1; reflexivity|].
+      split; [split; [reflexivity|split; assumption]|]. split.
+      * intros env x [Hp0 [Hp1 Hp]] He. cbn [dexactb] in He. apply andb_prop in He. destruct He as [He0 He1].
+        cbn [evalT]. rewrite (S0 env x Hp0 He0), (S1 env x Hp1 He1). unfold bin_lab_sem. cbn [String.eqb Ascii.eqb Bool.eqb].
+        cbn [dsem String.eqb Ascii.eqb Bool.eqb]. simpl in Hp.
+        rewrite pw_pos; [|exact Hp|intros z Hz; apply dint_exp_val; assumption].
+        rewrite Rabs_pos by exact Hp. reflexivity.
+      * intros Hsb Hdb. cbn [dbasisb] in Hdb. apply andb_prop in Hdb. destruct Hdb as [Hdb0 Hdb1].
+        cbn [relabel map relab1 forallb]. fold (relabel (l0 ++ l1)).
+        rewrite relabel_app, forallb_app, (B0 Hsb Hdb0), (B1 Hsb Hdb1).
+        change (relab_str "Pow") with "pow". rewrite lab_ok_bin by (auto; simpl; auto 10). reflexivity.
+    + (* Div *)
+      rewrite to_list_eq, decide_Div.
+      assert (Hc : String.eqb (dop c0) "Pow" && (String.eqb (dty c1) "NegativeOne" && mem "*" (b2 b)) = false).
+      { cbn [bad_here String.eqb Ascii.eqb Bool.eqb andb orb] in Hnbh.
+        destruct (String.eqb (dop c0) "Pow"), (String.eqb (dty c1) "NegativeOne"), (mem "*" (b2 b));
+          simpl in *; congruence. }
+      rewrite Hc.
+      cbn [otsub tsub obind]. rewrite E0, E1. cbn [obind app].
+      eexists; split; [reflexivity|]. rewrite ?app_nil_r.
+      exists (TBin "/" t0 t1).
+      split; [cbn [relabel map relab1]; fold (relabel (l0 ++ l1)); rewrite relabel_app, R0, R1; reflexivity|].
+      split; [split; [reflexivity|split; assumption]|]. split.
+      * intros env x [Hp0 [Hp1 _]] He. cbn [dexactb] in He. apply andb_prop in He. destruct He as [He0 He1].
+        cbn [evalT]. rewrite (S0 env x Hp0 He0), (S1 env x Hp1 He1). unfold bin_lab_sem. cbn [String.eqb Ascii.eqb Bool.eqb].
+        cbn [dsem String.eqb Ascii.eqb Bool.eqb]. rewrite powerRZ_m1. reflexivity.
+      * intros Hsb Hdb. cbn [dbasisb] in Hdb. apply andb_prop in Hdb. destruct Hdb as [Hdb0 Hdb1].
+        cbn [relabel map relab1 forallb]. fold (relabel (l0 ++ l1)).
+        rewrite relabel_app, forallb_app, (B0 Hsb Hdb0), (B1 Hsb Hdb1).
+        change (relab_str "Div") with "/". rewrite lab_ok_bin by (auto; simpl; auto 10). reflexivity.
+Qed.
+
+(* ================================================================ decorate builds well-shaped nodes with the same meaning *)
+Fixpoint esize (e : sexpr) : nat :=
+  match e with
+  | EApp _ args => S ((fix sum (l : list sexpr) : nat := match l with [] => 0%nat | a :: r => (esize a + sum r)%nat end) args)
+  | _ => 1%nat
+  end.
+Definition esizes (l : list sexpr) : nat := fold_right (fun a n => esize a + n)%nat 0%nat l.
+Lemma esize_app c l : esize (EApp c l) = S (esizes l).
+Proof. simpl. f_equal; induction l; simpl; auto. Qed.
+
+Definition alls (f : sexpr -> bool) (l : list sexpr) : bool := forallb f l.
+Lemma supportedb_app c l :
+  supportedb (EApp c l) =
+  forallb supportedb l
+  && (if String.eqb c "Add" || String.eqb c "Mul" then (2 <=? length l)%nat
+      else if String.eqb c "Pow" then (length l =? 2)%nat
+      else mem c un_classes && (length l =? 1)%nat).
+Proof. simpl. f_equal; induction l; simpl; auto; now rewrite IHl. Qed.
+Lemma exactb_app c l : exactb (EApp c l) = forallb exactb l.
+Proof. simpl. induction l; simpl; auto; now rewrite IHl. Qed.
+Lemma over_basisb_app b c l :
+  over_basisb b (EApp c l) =
+  forallb (over_basisb b) l
+  && (if String.eqb c "Add" || String.eqb c "Mul" || String.eqb c "Pow" then true
+      else mem (lower c) (b1 b) || mem c ["log"; "Abs"]).
+Proof. simpl. f_equal; induction l; simpl; auto; now rewrite IHl. Qed.
+Fixpoint poss (b : basis) (env : nat -> R) (x : R) (l : list sexpr) : Prop :=
+  match l with [] => True | a :: r => pos b env x a /\ poss b env x r end.
+Lemma pos_app b env x c l :
+  pos b env x (EApp c l) =
+  (poss b env x l
+   /\ (if String.eqb c "Pow" then
+          match l with
+          | [a; w] => if eq_int w (-1) && mem "inv" (b1 b) then True else (0 < sem env x a)%R
+          | _ => True
+          end
+        else if String.eqb c "log" then match l with [a] => (0 < sem env x a)%R | _ => True end
+        else True)).
+Proof. simpl. f_equal; induction l; simpl; auto; now rewrite IHl. Qed.
+
+Lemma decorate_app_eq b c l :
+  decorate b (EApp c l) =
+  let deg := length l in
+  let one (o : string) (a : sexpr) := d <- decorate b a ;; Some (D1 o c deg VNone d) in
+  let generic :=
+    match l with
+    | [] => Some (D0 c c 0 VNone)
+    | [a0] => d0 <- decorate b a0 ;; Some (D1 c c 1 VNone d0)
+    | [a0; a1] => d0 <- decorate b a0 ;; d1 <- decorate b a1 ;; Some (D2 c c 2 VNone d0 d1)
+    | a0 :: rest =>
+      if String.eqb c "Add" || String.eqb c "Mul"
+      then d0 <- decorate b a0 ;; d1 <- decorate b (EApp c rest) ;; Some (D2 c c deg VNone d0 d1)
+      else None
+    end in
+  if String.eqb c "Pow" then
+    match l with
+    | a0 :: a1 :: _ =>
+      if eq_int a1 2 && mem "square" (b1 b) then one "Square" a0
+      else if eq_int a1 3 && mem "cube" (b1 b) then one "Cube" a0
+      else if eq_half a1 && (mem "sqrt" (b1 b) || mem "sqrt_abs" (b1 b)) then one "Sqrt" a0
+      else if eq_int a1 (-1) && mem "inv" (b1 b) then one "Inv" a0
+      else generic
+    | _ => None
+    end
+  else if String.eqb c "Mul" then
+    match l with
+    | [a0; EApp c1 l1] =>
+      if String.eqb c1 "Pow" then
+        match l1 with
+        | u :: w :: _ =>
+          if eq_int w (-1)
+          then d0 <- decorate b a0 ;; d1 <- decorate b u ;; Some (D2 "Div" c 2 VNone d0 d1)
+          else generic
+        | _ => None
+        end
+      else generic
+    | _ => generic
+    end
+  else generic.
+Proof. destruct l as [|a0 [|a1 [|a2 r]]]; reflexivity. Qed.
+
+Definition dec_ok (b : basis) (e : sexpr) (d : dnode) : Prop :=
+  dwfb d = true
+  /\ (forall env x, dsem env x d = sem env x e)
+  /\ (forall env x, pos b env x e -> dpos env x d)
+  /\ (exactb e = true -> dexactb d = true)
+  /\ (over_basisb b e = true -> dbasisb b d = true).
+
+Lemma sem_add env x a r : sem env x (EApp "Add" (a :: r)) = (sem env x a + sem env x (EApp "Add" r))%R.
+Proof. reflexivity. Qed.
+Lemma sem_mul env x a r : sem env x (EApp "Mul" (a :: r)) = (sem env x a * sem env x (EApp "Mul" r))%R.
+Proof. reflexivity. Qed.
+Lemma sem_pow env x a w : sem env x (EApp "Pow" [a; w]) = pw (sem env x a) (int_exp w) (sem env x w).
+Proof. reflexivity. Qed.
+
+Lemma dint_decorate_app b c l d : decorate b (EApp c l) = Some d -> dint_exp d = None.
+Proof.
+  rewrite decorate_app_eq. cbv zeta.
+  assert (Hb : forall (o : option dnode) (f : dnode -> dnode),
+             (forall y, dint_exp (f y) = None) -> (y <- o ;; Some (f y)) = Some d -> dint_exp d = None).
+  { intros o f Hf. destruct o; simpl; [|discriminate]. intros [= <-]. apply Hf. }
+  assert (Hb2 : forall (o1 o2 : option dnode) (f : dnode -> dnode -> dnode),
+             (forall y z, dint_exp (f y z) = None) -> (y <- o1 ;; z <- o2 ;; Some (f y z)) = Some d -> dint_exp d = None).
+  { intros o1 o2 f Hf. destruct o1; simpl; [|discriminate]. destruct o2; simpl; [|discriminate]. intros [= <-]. apply Hf. }
+  assert (Hg : match l with
+               | [] => Some (D0 c c 0 VNone)
+               | [a0] => d0 <- decorate b a0 ;; Some (D1 c c 1 VNone d0)
+               | [a0; a1] => d0 <- decorate b a0 ;; d1 <- decorate b a1 ;; Some (D2 c c 2 VNone d0 d1)
+               | a0 :: rest =>
+                 if String.eqb c "Add" || String.eqb c "Mul"
+                 then d0 <- decorate b a0 ;; d1 <- decorate b (EApp c rest) ;; Some (D2 c c (length l) VNone d0 d1)
+                 else None
+               end = Some d -> dint_exp d = None).
+  { destruct l as [|a0 [|a1 [|a2 r]]].
+    - intros [= <-]. reflexivity.
+    - apply Hb. reflexivity.
+    - apply Hb2. reflexivity.
+    - destruct (String.eqb c "Add" || String.eqb c "Mul"); [|discriminate]. apply Hb2. reflexivity. }
+  destruct (String.eqb c "Pow").
+  - destruct l as [|a0 [|a1 r]]; try discriminate.
+    destruct (eq_int a1 2 && mem "square" (b1 b)); [apply Hb; reflexivity|].
+    destruct (eq_int a1 3 && mem "cube" (b1 b)); [apply Hb; reflexivity|].
+    destruct (eq_half a1 && (mem "sqrt" (b1 b) || mem "sqrt_abs" (b1 b))); [apply Hb; reflexivity|].
+    destruct (eq_int a1 (-1) && mem "inv" (b1 b)); [apply Hb; reflexivity|].
+    exact Hg.
+  - destruct (String.eqb c "Mul"); [|exact Hg].
+    destruct l as [|a0 [|a1 [|a2 r]]]; try exact Hg.
+    + destruct a1 as [| |c1 l1]; try exact Hg.
+      destruct (String.eqb c1 "Pow"); [|exact Hg].
+      destruct l1 as [|u [|w r1]]; try discriminate.
+      destruct (eq_int w (-1)); [apply Hb2; reflexivity|exact Hg].
+    + destruct a1; exact Hg.
+Qed.
+
+Lemma dint_decorate b e d : decorate b e = Some d -> dint_exp d = int_exp e.
+Proof.
+  destruct e as [c txt qv qp|s|c l].
+  - intros [= <-]. reflexivity.
+  - intros [= <-]. reflexivity.
+  - intro H. rewrite (dint_decorate_app b c l d H). reflexivity.
+Qed.
+
+(* eq_int facts *)
+Lemma eq_int_inv e k : eq_int e k = true ->
+  exists c txt qv qp, e = ENum c txt qv qp /\ is_intcls c = true /\ Qeq_bool qv (inject_Z k) = true.
+Proof.
+  destruct e as [c txt qv qp|s|c l]; simpl; try discriminate.
+  intro H. apply andb_prop in H. destruct H. eauto 10.
+Qed.
+Lemma eq_int_floor c txt qv qp k : eq_int (ENum c txt qv qp) k = true -> int_exp (ENum c txt qv qp) = Some k.
+Proof.
+  simpl. intro H. apply andb_prop in H. destruct H as [Hc Hq]. unfold int_of. rewrite Hc.
+  apply Qeq_bool_iff in Hq. rewrite Hq. f_equal. apply Qfloor_Z.
+Qed.
+Lemma eq_int_excl e j k : j <> k -> eq_int e j = true -> eq_int e k = false.
+Proof.
+  intros Hjk Hj. destruct (eq_int_inv e j Hj) as [c [txt [qv [qp [-> [Hc Hq]]]]]].
+  simpl. rewrite Hc. simpl. destruct (Qeq_bool qv (inject_Z k)) eqn:Hk; [|reflexivity].
+  apply Qeq_bool_iff in Hq, Hk. rewrite Hq in Hk. unfold Qeq, inject_Z in Hk. simpl in Hk. lia.
+Qed.
+
+Lemma esizes_in a l : In a l -> (esize a <= esizes l)%nat.
+Proof. induction l; simpl; [tauto|]. intros [-> | H]; [lia|]. apply IHl in H. lia. Qed.
+Lemma forallb_in {A} (f : A -> bool) l a : forallb f l = true -> In a l -> f a = true.
+Proof. intros H Hi. rewrite forallb_forall in H. auto. Qed.
+
+Lemma dec_ok_num b c txt qv qp :
+  numwfb c txt qv qp = true -> dec_ok b (ENum c txt qv qp) (D0 c c 0 (VNum txt qv qp)).
+Proof.
+  intro H. unfold dec_ok. cbn [dwfb dsem sem dpos exactb dexactb dbasisb over_basisb pos].
+  rewrite String.eqb_refl, H. repeat split; auto.
+Qed.
+Lemma dec_ok_sym b s : dec_ok b (ESym s) (D0 "Symbol" "Symbol" 0 (VSym s)).
+Proof. unfold dec_ok. cbn. repeat split; auto. Qed.
+
+Lemma dec_ok_bin2 b c a0 a1 d0 d1 :
+  (c = "Add" \/ c = "Mul") -> dec_ok b a0 d0 -> dec_ok b a1 d1 ->
+  dec_ok b (EApp c [a0; a1]) (D2 c c 2 VNone d0 d1).
+Proof.
+  intros Hc [W0 [S0 [P0 [X0 B0]]]] [W1 [S1 [P1 [X1 B1]]]]. unfold dec_ok.
+  rewrite exactb_app, over_basisb_app. cbn [forallb dwfb dexactb dbasisb]. rewrite W0, W1.
+  split; [destruct Hc as [-> | ->]; reflexivity|].
+  split; [intros env x; destruct Hc as [-> | ->]; cbn [dsem String.eqb Ascii.eqb Bool.eqb];
+          rewrite S0, S1; [rewrite !sem_add|rewrite !sem_mul]; cbn; ring|].
+  split; [intros env x; rewrite pos_app; cbn [poss]; intros [[Q0 [Q1 _]] _]; cbn [dpos];
+          split; [auto|split; [auto|destruct Hc as [-> | ->]; exact I]]|].
+  split.
+  - intro H. rewrite !andb_true_r in H. apply andb_prop in H. destruct H. rewrite X0, X1; auto.
+  - intro H. apply andb_prop in H. destruct H as [H _]. rewrite !andb_true_r in H.
+    apply andb_prop in H. destruct H. rewrite B0, B1; auto.
+Qed.
+
+Lemma dec_ok_nary b c a0 rest d0 dr :
+  (c = "Add" \/ c = "Mul") -> (1 <= length rest)%nat -> dec_ok b a0 d0 -> dec_ok b (EApp c rest) dr ->
+  dec_ok b (EApp c (a0 :: rest)) (D2 c c (S (length rest)) VNone d0 dr).
+Proof.
+  intros Hc Hl [W0 [S0 [P0 [X0 B0]]]] [W1 [S1 [P1 [X1 B1]]]]. unfold dec_ok.
+  rewrite exactb_app, over_basisb_app in *. cbn [forallb dwfb dexactb dbasisb]. rewrite W0, W1.
+  split; [destruct rest; [simpl in Hl; lia|]; destruct Hc as [-> | ->]; reflexivity|].
+  split; [intros env x; destruct Hc as [-> | ->]; cbn [dsem String.eqb Ascii.eqb Bool.eqb];
+          rewrite S0, S1; [rewrite sem_add|rewrite sem_mul]; reflexivity|].
+  split; [intros env x; rewrite pos_app; cbn [poss]; intros [[Q0 Q1] _]; cbn [dpos];
+          split; [auto|split; [apply P1; rewrite pos_app; split; [exact Q1|destruct Hc as [-> | ->]; exact I]
+                              |destruct Hc as [-> | ->]; exact I]]|].
+  split.
+  - intro H. apply andb_prop in H. destruct H. rewrite X0, X1; auto.
+  - intro H. apply andb_prop in H. destruct H as [H H']. apply andb_prop in H. destruct H.
+    rewrite B0, B1; auto. rewrite H0. exact H'.
+Qed.
+
+Lemma dec_ok_div b a0 u w d0 du :
+  eq_int w (-1) = true -> dec_ok b a0 d0 -> dec_ok b u du ->
+  dec_ok b (EApp "Mul" [a0; EApp "Pow" [u; w]]) (D2 "Div" "Mul" 2 VNone d0 du).
+Proof.
+  intros Hw [W0 [S0 [P0 [X0 B0]]]] [W1 [S1 [P1 [X1 B1]]]]. unfold dec_ok.
+  destruct (eq_int_inv w _ Hw) as [cw [txt [qv [qp [-> [Hcw Hq]]]]]].
+  rewrite !exactb_app, !over_basisb_app. cbn [forallb dwfb dexactb dbasisb]. rewrite !exactb_app, !over_basisb_app.
+  cbn [forallb]. rewrite W0, W1.
+  split; [reflexivity|].
+  split; [intros env x; cbn [dsem String.eqb Ascii.eqb Bool.eqb]; rewrite S0, S1, sem_mul, sem_mul, sem_pow,
+          (eq_int_floor _ _ _ _ _ Hw); cbn [pw]; cbn; ring|].
+  split; [intros env x; rewrite pos_app; cbn [poss]; rewrite pos_app; cbn [poss];
+          intros [[Q0 [[[Qu _] _] _]] _]; cbn [dpos]; auto|].
+  split.
+  - intro H. apply andb_prop in H. destruct H as [H H']. apply andb_prop in H'. destruct H' as [H' _].
+    apply andb_prop in H'. destruct H' as [H' _]. rewrite X0, X1; auto.
+  - intro H. apply andb_prop in H. destruct H as [H _]. apply andb_prop in H. destruct H as [H H'].
+    apply andb_prop in H'. destruct H' as [H' _]. apply andb_prop in H'. destruct H' as [H' _].
+    apply andb_prop in H'. destruct H' as [H' _]. rewrite B0, B1; auto.
+Qed.
+
+Lemma eq_half_inv e : eq_half e = true ->
+  exists txt qv qp, e = ENum "Float" txt qv qp /\ Qeq_bool qv (1 # 2) = true.
+Proof.
+  destruct e as [c txt qv qp|s|c l]; simpl; try discriminate.
+  intro H. apply andb_prop in H. destruct H as [Hc Hq]. apply String.eqb_eq in Hc. subst. eauto.
+Qed.
+
+(* the four renamings of Pow *)
+Lemma dec_ok_pow1 b o a0 a1 d0 :
+  dec_ok b a0 d0 ->
+  (o = "Square" /\ eq_int a1 2 = true /\ mem "square" (b1 b) = true
+   \/ o = "Cube" /\ eq_int a1 3 = true /\ mem "cube" (b1 b) = true
+   \/ o = "Sqrt" /\ eq_half a1 = true
+   \/ o = "Inv" /\ eq_int a1 (-1) = true /\ mem "inv" (b1 b) = true) ->
+  dec_ok b (EApp "Pow" [a0; a1]) (D1 o "Pow" 2 VNone d0).
+Proof.
+  intros [W0 [S0 [P0 [X0 B0]]]] Ho. unfold dec_ok.
+  rewrite exactb_app, over_basisb_app. cbn [forallb dwfb dexactb dbasisb]. rewrite W0.
+  split; [destruct Ho as [[-> _] | [[-> _] | [[-> _] | [-> _]]]]; reflexivity|].
+  split.
+  { intros env x. rewrite sem_pow.
+    destruct Ho as [[-> [H _]] | [[-> [H _]] | [[-> H] | [-> [H _]]]]]; cbn [dsem String.eqb Ascii.eqb Bool.eqb]; rewrite S0.
+    - destruct (eq_int_inv a1 _ H) as [cw [txt [qv [qp [-> _]]]]]. rewrite (eq_int_floor _ _ _ _ _ H). reflexivity.
+    - destruct (eq_int_inv a1 _ H) as [cw [txt [qv [qp [-> _]]]]]. rewrite (eq_int_floor _ _ _ _ _ H). reflexivity.
+    - destruct (eq_half_inv a1 H) as [txt [qv [qp [-> Hq]]]]. cbn [int_exp]. change (int_of "Float" qv) with (@None Z).
+      cbn [pw sem]. rewrite (Qeq_bool_R _ _ Hq). reflexivity.
+    - destruct (eq_int_inv a1 _ H) as [cw [txt [qv [qp [-> _]]]]]. rewrite (eq_int_floor _ _ _ _ _ H). reflexivity. }
+  split.
+  { intros env x. rewrite pos_app. cbn [poss String.eqb Ascii.eqb Bool.eqb]. intros [[Q0 _] Hp]. cbn [dpos].
+    split; [auto|]. rewrite S0.
+    destruct Ho as [[-> [H _]] | [[-> [H _]] | [[-> H] | [-> [H _]]]]].
+    - rewrite (eq_int_excl a1 2 (-1)) in Hp by (auto; lia). exact Hp.
+    - rewrite (eq_int_excl a1 3 (-1)) in Hp by (auto; lia). exact Hp.
+    - destruct (eq_half_inv a1 H) as [txt [qv [qp [-> Hq]]]]. exact Hp.
+    - exact I. }
+  split.
+  - intro H. apply andb_prop in H. destruct H as [H _]. auto.
+  - intro H. apply andb_prop in H. destruct H as [H _]. apply andb_prop in H. destruct H as [H _].
+    rewrite (B0 H).
+    destruct Ho as [[-> [_ Hm]] | [[-> [_ Hm]] | [[-> _] | [-> [_ Hm]]]]]; cbn [Nat.eqb String.eqb Ascii.eqb Bool.eqb andb];
+      rewrite ?Hm, ?orb_true_r; reflexivity.
+Qed.
+
+Lemma dec_ok_pow2 b a0 a1 d0 d1 :
+  eq_int a1 (-1) && mem "inv" (b1 b) = false -> decorate b a1 = Some d1 ->
+  dec_ok b a0 d0 -> dec_ok b a1 d1 ->
+  dec_ok b (EApp "Pow" [a0; a1]) (D2 "Pow" "Pow" 2 VNone d0 d1).
+Proof.
+  intros Hc Hd [W0 [S0 [P0 [X0 B0]]]] [W1 [S1 [P1 [X1 B1]]]]. unfold dec_ok.
+  rewrite exactb_app, over_basisb_app. cbn [forallb dwfb dexactb dbasisb]. rewrite W0, W1.
+  split; [reflexivity|].
+  split; [intros env x; rewrite sem_pow; cbn [dsem String.eqb Ascii.eqb Bool.eqb];
+          rewrite S0, S1, (dint_decorate b a1 d1 Hd); reflexivity|].
+  split; [intros env x; rewrite pos_app; cbn [poss String.eqb Ascii.eqb Bool.eqb]; rewrite Hc;
+          intros [[Q0 [Q1 _]] Hp]; cbn [dpos String.eqb Ascii.eqb Bool.eqb]; rewrite S0; auto|].
+  split.
+  - intro H. apply andb_prop in H. destruct H as [H H']. apply andb_prop in H'. destruct H' as [H' _].
+    rewrite X0, X1; auto.
+  - intro H. apply andb_prop in H. destruct H as [H _]. apply andb_prop in H. destruct H as [H H'].
+    apply andb_prop in H'. destruct H' as [H' _]. rewrite B0, B1; auto.
+Qed.
+
+Lemma dec_ok_un b c a0 d0 :
+  In c un_classes -> dec_ok b a0 d0 -> dec_ok b (EApp c [a0]) (D1 c c 1 VNone d0).
+Proof.
+  intros Hc [W0 [S0 [P0 [X0 B0]]]]. unfold dec_ok.
+  rewrite exactb_app, over_basisb_app. cbn [forallb dwfb dexactb dbasisb Nat.eqb]. rewrite W0.
+  simpl in Hc.
+  repeat (destruct Hc as [<- | Hc]; [
+    split; [reflexivity|];
+    split; [intros env x; cbn [dsem sem String.eqb Ascii.eqb Bool.eqb]; rewrite S0; reflexivity|];
+    split; [intros env x; rewrite pos_app; cbn [poss String.eqb Ascii.eqb Bool.eqb]; intros [[Q0 _] Hp];
+            cbn [dpos]; split; [auto|]; rewrite S0; first [exact Hp | exact I]|];
+    split; [intro H; rewrite andb_true_r in H; auto|];
+    intro H; apply andb_prop in H; destruct H as [H H']; rewrite andb_true_r in H; rewrite (B0 H);
+    cbn [String.eqb Ascii.eqb Bool.eqb orb] in H'; exact H' |]).
+  contradiction.
+Qed.
